@@ -115,6 +115,12 @@ def build_graph(rng, hd, cap, n, k, m, stale=False, data=True, tree=False, ids=N
             used[p].append(a)
             ops.append("BIND %s %d %d %s" % (hd, p, v, a))
     elif len(ids) >= 2:
+        if many_groups:
+            # the graph proper must be ONE group (13 bystander groups are alive): a spanning path first
+            for a_, b_ in zip(ids, ids[1:]):
+                lab = rng.pick(labels)
+                used[a_].append(lab)
+                ops.append("BIND %s %d %d %s" % (hd, a_, b_, lab))
         for _ in range(m):
             v1 = rng.pick(ids)
             v2 = rng.pick([x for x in ids if x != v1])
@@ -142,7 +148,7 @@ def build_graph(rng, hd, cap, n, k, m, stale=False, data=True, tree=False, ids=N
                     if mates:
                         ops.append("PUT %s %d %s" % (hd, mates[0], gen.gen_data(rng)))
                         ops.append("DATA %s %d" % (hd, v))
-    if dangling and len(ids) >= 2 and cap - len(ids) >= 4:
+    if dangling and not many_groups and len(ids) >= 2 and cap - len(ids) >= 4:
         # an edge from a present vertex to a vertex whose group has been collected since
         grouped = [v for v in ids if any(o.split()[0] == "BIND" and str(v) in o.split()[2:4] for o in ops)]
         rest = [v for v in range(cap) if v not in ids][2:]
@@ -199,6 +205,27 @@ class C18(Prop):
                 for j in range(len(b2) - 1, 0, -1):
                     jj = r.below(j + 1)
                     b2[j], b2[jj] = b2[jj], b2[j]
+                if cap == 256:
+                    # near the group limit (13 bystander groups): every connected component must become ONE group again, so
+                    # its edges are bound in an order in which each bind touches the part already built
+                    done, rest, b3 = set(), list(b2), []
+                    while rest:
+                        k = next((j for j, (v, w, a) in enumerate(rest) if v in done or w in done), None)
+                        if k is None:
+                            k = 0
+                        v, w, a = rest.pop(k)
+                        b3.append((v, w, a))
+                        done.update((v, w))
+                        # finish this component before starting the next one
+                        while True:
+                            k = next((j for j, (v2, w2, a2) in enumerate(rest) if v2 in done or w2 in done), None)
+                            if k is None:
+                                break
+                            v2, w2, a2 = rest.pop(k)
+                            b3.append((v2, w2, a2))
+                            done.update((v2, w2))
+                        done = set()
+                    b2 = b3
                 ops2 = ["NEW h %d" % cap2] + ["ADD h %d" % v for v in adds2] + ["BIND h %d %d %s" % e for e in b2]
                 for v in pres:
                     d = t.datum.get(v)
@@ -476,6 +503,11 @@ def slice_after_join_history(rng, hid):
 
 class C13(Prop):
     pid = "C13"
+    # "for every reachable graph and start vertex v such that everything reachable from v is present and numbers at most
+    # 14 vertices": the text limits the sliced part, not the source.  The oracle (slice vs reachability on the
+    # implementation's own snapshot) therefore also judges sources with more groups than the crate can hold (a pair
+    # bound while all 14 slots are taken stays ungrouped, with its edge); the comparison with the model stops at the limit.
+    oracle_beyond_limits = True
     ops = CORE_OPS | {"SLICE"}
     rule = ("random digraphs of up to 14 vertices (cycles, shared targets, parallel edges, no self loops, every reachable "
             "vertex present) sliced from random start vertices with slice() and with slice_some() under random rejected-edge "
@@ -512,6 +544,23 @@ class C13(Prop):
             hs.append(slice_after_join_history(rng.fork(), "c13-join%d" % i))
         for i in range(0 if os.environ.get("VERIF_NO_W8") else 40 if tier == "quick" else 1500):
             hs.append(dense_slice_history(rng.fork(), "c13-dense%d" % i))
+        for i in range(30 if tier == "quick" else 1000):
+            # all 14 group slots taken, then the part to be sliced is bound (its vertices stay ungrouped, with their edges)
+            r = rng.fork()
+            ops = ["NEW g 64"]
+            for b in range(14):
+                ops += ["ADD g %d" % (2 * b), "ADD g %d" % (2 * b + 1), "BIND g %d %d %s" % (2 * b, 2 * b + 1, gen.lab_alpha(0))]
+            k = 2 + r.below(5)
+            ids = list(range(40, 40 + k))
+            ops += ["ADD g %d" % v for v in ids]
+            for j in range(1, k):
+                ops.append("BIND g %d %d %s" % (ids[r.below(j)], ids[j], gen.lab_alpha(j)))
+            if r.chance(1, 2):
+                ops.append("BIND g %d %d %s" % (ids[-1], ids[0], gen.lab_alpha(9)))
+            ops.append("SNAP g")
+            for j, v in enumerate([ids[0], r.pick(ids), 0]):
+                ops += ["SLICE g %d s%d" % (v, j), "SNAP g"]
+            hs.append(History("c13-over%d" % i, 16, ops))
         return hs
 
     def oracle(self, h, il):
@@ -958,6 +1007,7 @@ def reachable_graph_history(rng, hid, length=None, **kw):
 
 class C08(Prop):
     pid = "C08"
+    strict_image = True      # the theorems are about this byte format
     shrink_ok = False
     ops = CORE_OPS | {"SAVE", "LOAD"}
     rule = ("graphs reached by random histories (groups with unread data, read and unread vertices, heap and inline data "
@@ -1070,6 +1120,7 @@ class C08(Prop):
 
 class C09(Prop):
     pid = "C09"
+    strict_image = True      # the theorems are about this byte format
     ops = CORE_OPS | {"SAVE", "LOADCUTS", "LOADFLIP", "LOAD", "CUTSAMPLE"}
     exhaustive = True
     rule = ("images of graphs reached by random histories (heap-encoded data, multi-edge vertices, 2/3/4-byte label "
